@@ -12,6 +12,10 @@ Lemma gen_readtar_err : readtar_error_result = false. Proof. reflexivity. Qed.
 Lemma gen_cmd_and : cmd_retrieve_needs_exit_ok = true. Proof. reflexivity. Qed.
 Lemma gen_cmd_closes : cmd_retrieve_closes_reader = true. Proof. reflexivity. Qed.
 Lemma gen_cmd_tar_close : cmd_write_deferred_tar_close = true. Proof. reflexivity. Qed.
+(* fs.WalkMode gives godirwalk no ErrorCallback: an error of storeFile on an entry inside a
+   directory output halts the walk, whatever the error is *)
+Lemma gen_walk_halts : walk_callback_error_action = WHalt. Proof. reflexivity. Qed.
+Lemma gen_walk_root : walk_root_lstat_error_returned = true. Proof. reflexivity. Qed.
 
 (* ------------------------------------------------------------------------------------------
    Specification vocabulary *)
@@ -105,20 +109,28 @@ Fixpoint walk_list (l : list tree) : list chunk * bool :=
               if ok then let '(b, ok') := walk_list r in (a ++ b, ok') else (a, false)
   end.
 
+Lemma walk_halt : walk = walk_a WHalt.
+Proof. unfold walk. rewrite gen_walk_halts. reflexivity. Qed.
+Lemma write_halt : write = write_a WHalt.
+Proof. unfold write. rewrite gen_walk_halts. reflexivity. Qed.
+
 Lemma walk_dir n ch : walk (TDir n ch) = let '(b, ok) := walk_list ch in (CDir n :: b, ok).
 Proof.
-  cbn [walk].
+  rewrite walk_halt. cbn [walk_a skippable].
   replace ((fix go (l : list tree) : list chunk * bool :=
               match l with
               | [] => ([], true)
-              | x :: r => let '(a, ok) := walk x in
+              | x :: r => let '(a, ok) := walk_a WHalt x in
                           if ok then let '(b, ok') := go r in (a ++ b, ok') else (a, false)
               end) ch) with (walk_list ch); [reflexivity|].
-  induction ch as [|x r IH]; cbn; [reflexivity|]. rewrite IH. reflexivity.
+  induction ch as [|x r IH]; cbn [walk_list]; [reflexivity|]. rewrite IH, walk_halt. reflexivity.
 Qed.
 
 Lemma write_walk_list files : write files = walk_list files.
-Proof. induction files as [|x r IH]; cbn; [reflexivity|]. rewrite IH. reflexivity. Qed.
+Proof.
+  rewrite write_halt.
+  induction files as [|x r IH]; cbn [write_a walk_list]; [reflexivity|]. rewrite IH, walk_halt. reflexivity.
+Qed.
 
 (* the property of one tree that the list lemmas need *)
 Definition walk_spec (t : tree) : Prop :=
